@@ -7,6 +7,7 @@ import MesonModel.Install.PathLemmas
 import MesonModel.Install.DryRunLemmas
 import MesonModel.Install.ConfineInstall
 import MesonModel.Install.UninstallLemmas
+import MesonModel.Install.InstallLog3
 
 namespace MesonModel.Props.C11
 open MesonModel.Install MesonModel.Py
@@ -41,15 +42,15 @@ theorem confined_destination (p : Plan) (o : Opts) (path out : Str)
   · simp at h
 
 /-- **Confinement of the whole installation.**  For every plan whose recorded directory walks hold directory-entry
-names and whose source paths do not end in `..` (`PlanOK`), every option set with a DESTDIR, and every initial
+names (no slash, not empty, `.` or `..`) and whose source paths do not end in `..` (`PlanOK`), every option set with a DESTDIR, and every initial
 tree: a key that is not under DESTDIR is bound after `meson install` exactly as before — the only exception being
-a strict ancestor of DESTDIR that was absent or a directory, which is a directory afterwards (DESTDIR's missing
-parents are created).  Install paths may contain `..`: `get_destdir_path` refuses the ones that leave DESTDIR.
+a strict ancestor of DESTDIR that was absent, which is a directory afterwards (DESTDIR's missing parents
+are created).  Install paths may contain `..`: `get_destdir_path` refuses the ones that leave DESTDIR.
 Holds for runs that raise half-way, `--dry-run`, `--only-changed`, any tags/skip selection. -/
 theorem confined (p : Plan) (o : Opts) (fs : FS) (hp : PlanOK p) (hne : (mkCfg p o).destdir ≠ [])
     (k : Key) (hk : ¬ keyOfAbs (mkCfg p o).destdir <+: k) :
     (install p o fs).fs.get k = fs.get k ∨
-    (k <+: keyOfAbs (mkCfg p o).destdir ∧ (fs.look k = none ∨ ∃ m', fs.look k = some (.dir m')) ∧
+    (k <+: keyOfAbs (mkCfg p o).destdir ∧ fs.look k = none ∧
       ∃ m, (install p o fs).fs.get k = some (.dir m)) :=
   Inv_install p o fs hp hne k hk
 
@@ -237,14 +238,14 @@ example : (uninstall "/b".toList ["/d/x ".toList]
 /-- **Uninstall restores a fresh destination, for whole logs.**  Let `fs` be the tree before and `fs'` the tree
 after an installation whose log is `log`.  If (fresh) no logged path existed before, (log complete) the two trees
 agree on every key the log does not name, (fresh, continued) nothing that existed before sits directly inside a
-logged path, and (children first) no logged path is followed by one of its own children — the order
+logged path, and (children first) no logged path that is a directory in `fs'` is followed by one of its own children — the order
 `DirMaker.__exit__` produces by logging files first and directories in reverse creation order — then replaying
 the log with `do_uninstall` gives back `fs` on every key.  Comment lines and repeated lines are allowed. -/
 theorem uninstall_restores (cwd : Str) (log : List Str) (fs fs' : FS)
     (hfresh : ∀ k ∈ logKeys cwd log, fs.get k = none)
     (hcomplete : ∀ k, k ∉ logKeys cwd log → fs'.get k = fs.get k)
     (hinside : ∀ c, c ≠ [] → fs.get c ≠ none → c.dropLast ∉ logKeys cwd log)
-    (horder : ChildrenFirst (logKeys cwd log)) :
+    (horder : ChildrenFirst fs' (logKeys cwd log)) :
     ∀ k, (uninstall cwd log fs').get k = fs.get k := by
   rw [uninstall_eq]
   exact removeKeys_restores fs _ fs' hfresh hcomplete hinside horder
@@ -273,6 +274,106 @@ example :
     subst this
     decide
   · rw [hk]; unfold ChildrenFirst; decide
+
+/-- **The installer's own log is complete and lists children first.**  For every plan that neither reads nor
+creates symbolic links (`LinkFree`), every real (non dry-run) successful installation into a fresh DESTDIR
+(nothing exists at or below it) on a link-free, well-formed tree:
+(1) every path that did not exist before and exists afterwards is named by `install-log.txt`;
+(2) every path the log names did not exist before;
+(3) no logged directory is followed by one of its own children (files first, `DirMaker`'s directories in reverse
+creation order) — the hypotheses `uninstall_restores` needs. -/
+theorem log_complete (p : Plan) (o : Opts) (fs : FS) (hp : PlanOK p) (hl : LinkFree p)
+    (hdry : o.dryRun = false) (hne : (mkCfg p o).destdir ≠ []) (hD : keyOfAbs (mkCfg p o).destdir ≠ [])
+    (hfresh : ∀ k, keyOfAbs (mkCfg p o).destdir <+: k → fs.get k = none)
+    (hNL : NL fs) (hWF : WF fs) (hok : (install p o fs).err = none) :
+    (∀ k, k ≠ [] → fs.get k = none → (install p o fs).fs.get k ≠ none →
+      k ∈ logKeys p.buildDir (install p o fs).log) ∧
+    (∀ k ∈ logKeys p.buildDir (install p o fs).log, fs.get k = none) ∧
+    ChildrenFirst (install p o fs).fs (logKeys p.buildDir (install p o fs).log) := by
+  obtain ⟨s, hlog, hfs, _, hg⟩ := install_LG p o fs hp hl hdry hne hD hfresh hNL hWF hok
+  rw [hlog, hfs, logKeys_append, logKeys_reverse]
+  refine ⟨?_, ?_, ?_⟩
+  · intro k hk h0 hget
+    rcases hg.cl k hk h0 hget with h | h
+    · exact List.mem_append.mpr (Or.inl h)
+    · exact List.mem_append.mpr (Or.inr (List.mem_reverse.mpr h))
+  · intro k hk
+    rcases List.mem_append.mp hk with h | h
+    · exact (hg.nf k h).2
+    · exact (hg.dk k (List.mem_reverse.mp h)).2
+  · unfold ChildrenFirst
+    rw [List.pairwise_append]
+    refine ⟨?_, ?_, ?_⟩
+    · apply pairwise_of_left
+      intro a ha b
+      obtain ⟨⟨m, d, t, hm⟩, _⟩ := hg.nf a ha
+      left; rw [hm]; rfl
+    · rw [List.pairwise_reverse]
+      exact hg.dord.imp (fun hab => Or.inr (Or.inr hab))
+    · intro a ha b _
+      obtain ⟨⟨m, d, t, hm⟩, _⟩ := hg.nf a ha
+      left; rw [hm]; rfl
+
+/-- **Uninstall after install restores the tree**, composed end to end: for every link-free plan, a successful
+real installation into a fresh DESTDIR followed by `ninja uninstall` (replaying the installation's own log) gives
+back the initial tree on every key. -/
+theorem uninstall_after_install_restores (p : Plan) (o : Opts) (fs : FS) (hp : PlanOK p) (hl : LinkFree p)
+    (hdry : o.dryRun = false) (hne : (mkCfg p o).destdir ≠ []) (hD : keyOfAbs (mkCfg p o).destdir ≠ [])
+    (hfresh : ∀ k, keyOfAbs (mkCfg p o).destdir <+: k → fs.get k = none)
+    (hNL : NL fs) (hWF : WF fs) (hok : (install p o fs).err = none) :
+    ∀ k, (uninstall p.buildDir (install p o fs).log (install p o fs).fs).get k = fs.get k :=
+  uninstall_install p o fs hp hl hdry hne hD hfresh hNL hWF hok
+
+/-- a link-free plan with headers, data, an empty directory and a subdirectory walk (names with spaces) -/
+def lfPlan : Plan :=
+  { buildDir := "/b".toList, pfx := "/usr".toList, umask := some 0o022, targets := [], man := [], symlinks := [],
+    emptydirs := [{ path := "var/e".toList, mode := none, subproject := [], tag := none }],
+    headers := [{ path := "/s/a b.h".toList, src := .file 0o600 7 3, installPath := "include".toList, mode := none,
+                  subproject := [], tag := none, follow := none }],
+    data := [{ path := "/s/t".toList, src := .file 0o755 9 4, installPath := "/opt/t o/t".toList,
+               mode := some { perms := some 0o750, chown := false }, subproject := [], tag := none, follow := none }],
+    subdirs := [{ path := "/s/tree".toList, installPath := "/usr/share/tree".toList, mode := none, exclude := none,
+                  subproject := [], tag := none, follow := none,
+                  walk := [{ rel := [], rootMode := 0o755, dirs := [("sub dir".toList, .real 0o700)],
+                             files := [("x.txt".toList, .file 0o644 1 2)] },
+                           { rel := ["sub dir".toList], rootMode := 0o700, dirs := [],
+                             files := [(" y ".toList, .file 0o600 3 4)] }] }] }
+
+def lfOpts : Opts :=
+  { destdir := some "/d".toList, dryRun := false, onlyChanged := false, tags := none, skipSubprojects := [], ambientUmask := 0o022 }
+
+def lfFs : FS := [(["s"].map String.toList, .dir 0o755)]
+
+/-- the hypotheses of `log_complete` / `uninstall_after_install_restores` are satisfiable -/
+example : PlanOK lfPlan ∧ LinkFree lfPlan ∧ (mkCfg lfPlan lfOpts).destdir ≠ [] ∧
+    keyOfAbs (mkCfg lfPlan lfOpts).destdir ≠ [] ∧
+    (∀ k, keyOfAbs (mkCfg lfPlan lfOpts).destdir <+: k → lfFs.get k = none) ∧ NL lfFs ∧ WF lfFs ∧
+    (install lfPlan lfOpts lfFs).err = none := by
+  have hget : ∀ k, lfFs.get k ≠ none → k = ["s"].map String.toList := by
+    intro k h
+    by_cases e : (["s"].map String.toList) = k
+    · exact e.symm
+    · exfalso; apply h; simp only [lfFs, FS.get, e, if_false]
+  refine ⟨⟨by decide, by decide, by decide, by decide, by decide, by decide⟩,
+    ⟨by decide, by decide, by decide, by decide, by decide, by decide⟩, by decide, by decide, ?_, ?_, ?_,
+    by decide +kernel⟩
+  · intro k hk
+    by_cases h : lfFs.get k = none
+    · exact h
+    · have := hget k h
+      subst this
+      revert hk
+      decide
+  · intro k t e
+    have := hget k (by rw [e]; simp)
+    subst this
+    have hv : lfFs.get (["s"].map String.toList) = some (.dir 0o755) := by decide
+    rw [hv] at e
+    cases e
+  · intro c _ h
+    have := hget c h
+    subst this
+    left; decide
 
 /-! ### histories on a concrete plan (sanity instances of reversibility and idempotence) -/
 
